@@ -208,7 +208,7 @@ class AutoLink(SpanToken):
         content = match.group(self.parse_group)
         self.children = (RawText(content),)
         self.target = content
-        self.mailto = '@' in self.target and 'mailto' not in self.target.casefold()
+        self.mailto = '@' in self.target and ':' not in self.target
 
 
 class EscapeSequence(SpanToken):
